@@ -504,8 +504,17 @@ func (i *IniParser) matchingGroups(name string) []*Group {
 func (i *IniParser) parse(ini *ini) error {
 	p := i.parser
 
+	// Options that were set explicitly before this ini is read keep their
+	// value when parsing as defaults. This cannot be decided from the flag
+	// inside the loop below, since every applied ini value sets it as well.
+	var explicit = make(map[*Option]bool)
+
 	p.eachOption(func(cmd *Command, group *Group, option *Option) {
 		option.clearReferenceBeforeSet = true
+
+		if option.preventDefault {
+			explicit[option] = true
+		}
 	})
 
 	var quotesLookup = make(map[*Option]bool)
@@ -552,7 +561,7 @@ func (i *IniParser) parse(ini *ini) error {
 			}
 
 			// ini value is ignored if parsed as default but defaults are prevented
-			if i.ParseAsDefaults && opt.preventDefault {
+			if i.ParseAsDefaults && explicit[opt] {
 				continue
 			}
 
@@ -588,6 +597,7 @@ func (i *IniParser) parse(ini *ini) error {
 			var err error
 
 			if i.ParseAsDefaults {
+				opt.preventDefault = false
 				err = opt.setDefault(pval)
 			} else {
 				err = opt.Set(pval)
